@@ -70,6 +70,9 @@ func RandCfg(r *rand.Rand) Cfg {
 		c.KK, c.VKind, c.Fmt, c.Reg = "str", "str", "json", true
 	}
 	c.WideCmp = r.Intn(3) == 0
+	if r.Intn(12) == 0 {
+		c.BF = pick(r, []uint{5, 7, 32, 64, 256, 300}) // branch factors off the beaten track
+	}
 	return c
 }
 
